@@ -19,6 +19,8 @@ var (
 	DialFn func(ctx context.Context, network, addr string) (net.Conn, error)
 	// YieldFn deschedules the calling goroutine at a named site when set.
 	YieldFn func(site string)
+	// FaultFn may panic at a named fault point when set (fault injection).
+	FaultFn func(site string)
 	// PoolGetFn / PoolPutFn replace sync.Pool with a deterministic pool when set.
 	PoolGetFn func(pool any) (any, bool)
 	PoolPutFn func(pool any, v any) bool
@@ -33,6 +35,13 @@ func Dial(ctx context.Context, network, addr string) (net.Conn, bool, error) {
 	}
 	c, err := DialFn(ctx, network, addr)
 	return c, true, err
+}
+
+// Fault gives an installed simulator the chance to inject a fault (a panic) at a named point.
+func Fault(site string) {
+	if FaultFn != nil {
+		FaultFn(site)
+	}
 }
 
 // Yield deschedules the caller if a simulator is installed.
